@@ -240,6 +240,31 @@ def check_string(s, rec=None, must_refuse=False, overridable_only=False, only_pl
                     f"faulty selector {s!r} (overridable={ov}) was accepted by creation and activation",
                     extra={"bucket": "silent-accept"},
                 )
+        if must_refuse and not overridable_only:
+            # ... and when the probe type is requested explicitly
+            p = None
+            try:
+                try:
+                    p = probing(s, env=ENV, probe_type="total")
+                    p.__enter__()
+                except _Hang:
+                    raise
+                except BaseException as e:
+                    bad = classify_activation(e)
+                    if bad:
+                        raise PropertyViolation(
+                            "activation", f"probing({s!r}, probe_type='total') create/enter: {bad}",
+                            extra={"bucket": "activation-total:" + HY.exc_bucket(e)})
+                else:
+                    try:
+                        p.__exit__(None, None, None)
+                    except BaseException:  # noqa
+                        pass
+                    raise PropertyViolation(
+                        "silent-accept", f"faulty selector {s!r} was accepted with an explicit probe_type='total'",
+                        extra={"bucket": "silent-accept-total"})
+            finally:
+                _cleanup()
         if must_refuse:
             # the fault must also be refused when the selector shares its probe with a valid one
             for texts in ((COMPANION, s), (s, COMPANION)):
